@@ -579,7 +579,7 @@ static void setup()
 	add_generator("factorial_orders", ctx().thorough ? 240 : 24, case_factorial);
 	add_generator("binomial_rows", NBIN + 1, case_binomial);
 	add_generator("pq_grid", GRID.size(), case_pq_grid);
-	add_generator("pq_random", ctx().count(200000, 20000000), case_pq_random);
-	add_generator("inverse", ctx().count(40000, 3000000), case_inverse);
+	add_generator("pq_random", ctx().count(200000, 6000000), case_pq_random);
+	add_generator("inverse", ctx().count(40000, 1000000), case_inverse);
 }
 VERIF_MAIN("C06", setup)
